@@ -774,3 +774,153 @@ func TestC12GRPCBackend(t *testing.T) {
 }
 
 var _ = disk.VerifDir
+
+// TestC12WriteThroughRealGRPC: write-through and read-through between two real
+// instances: a front cache whose backend is the real grpcproxy talking to a
+// second, stock-configured instance (grpc-go's default 4 MiB message limit,
+// as the binary has), and a peer front cache in front of the same backend.
+// Sizes straddle the proxy's 2 MiB upload chunk and the 4 MiB message limit.
+func TestC12WriteThroughRealGRPC(t *testing.T) {
+	rt.Check(t, rt.N(25, 250), func(t *rapid.T) {
+		mode := rapid.SampledFrom([]string{"zstd", "uncompressed"}).Draw(t, "mode")
+		backend, err := stack.New(stack.Opts{Storage: mode, StockGRPCLimits: true})
+		if err != nil {
+			t.Fatal(err)
+		}
+		defer backend.Close()
+		newFront := func() *stack.Stack {
+			gp := grpcproxy.New(grpcproxy.NewGrpcClients(backend.Conn), mode, quiet, quiet, 2, 10)
+			f, err := stack.New(stack.Opts{Storage: mode, Proxy: gp, NoServers: true})
+			if err != nil {
+				t.Fatal(err)
+			}
+			return f
+		}
+		front := newFront()
+		defer front.Close()
+		// CAS only: an ActionResult that travels through a second instance comes
+		// back re-marshalled with the documented server-side changes (C11), not
+		// byte-identical; the read-through of action results is in TestC12GRPCBackend.
+		kind := cache.CAS
+		size := rapid.SampledFrom([]int{1, 70000, 2*gen.MiB - 1, 2 * gen.MiB, 2*gen.MiB + 1, 3 * gen.MiB, 4*gen.MiB - 2048, 4*gen.MiB - 1, 4 * gen.MiB, 4*gen.MiB + 1, 5*gen.MiB + 3}).Draw(t, "size")
+		content := rapid.SampledFrom([]string{"rand", "rand", "text"}).Draw(t, "content") // incompressible: on-disk size ~ logical size
+		var data []byte
+		var hash string
+		if kind == cache.CAS {
+			data = gen.Expand(uint64(size), size, content)
+			hash = gen.SHA(data)
+		} else {
+			if size > 3*gen.MiB {
+				size = 3 * gen.MiB
+			}
+			ar := &pb.ActionResult{StdoutRaw: gen.Expand(5, size, content), ExitCode: 3, ExecutionMetadata: &pb.ExecutedActionMetadata{Worker: "w"}}
+			data, _ = proto.Marshal(ar)
+			hash = gen.SHA([]byte("ac-key"))
+		}
+		sizeCls := fmt.Sprintf("%dMiB", (len(data)+gen.MiB/2)/gen.MiB)
+		ctxs := fmt.Sprintf("backend=real-grpc mode=%s kind=%s size=%d content=%s", mode, kind, len(data), content)
+		E.Case(fmt.Sprintf("realgrpc|%s|%s|%s", mode, kind, sizeCls), len(data) >= 2*gen.MiB, "backend=real-grpc-writethrough", "mode="+mode, "kind="+kind.String(), "size~"+sizeCls)
+		E.Sample("realgrpc/"+sizeCls, map[string]any{"backend": "real grpcproxy -> second instance", "mode": mode, "kind": kind.String(), "bytes": len(data), "content": content})
+		if err := front.Cache.Put(context.Background(), kind, hash, int64(len(data)), bytes.NewReader(data)); err != nil {
+			t.Fatalf("upload to the front cache failed: %v: %s", err, ctxs)
+		}
+		// the hand-off is asynchronous: wait (bounded) until the backend has it
+		arrived := false
+		for deadline := time.Now().Add(20 * time.Second); time.Now().Before(deadline); time.Sleep(5 * time.Millisecond) {
+			if ok, _ := backend.Cache.Contains(context.Background(), kind, hash, int64(len(data))); ok {
+				arrived = true
+				break
+			}
+		}
+		if !arrived {
+			t.Fatalf("an accepted upload never arrived at the backend (waited 20 s): %s", ctxs)
+		}
+		if r := diskGet(backend, kind, hash, int64(len(data))); !r.hit || !bytes.Equal(r.data, data) {
+			t.Fatalf("the backend holds other bytes than were uploaded (hit=%v, %d bytes): %s", r.hit, len(r.data), ctxs)
+		}
+		peer := newFront()
+		defer peer.Close()
+		for _, sz := range []int64{int64(len(data)), -1} {
+			if kind == cache.CAS && sz < 0 {
+				continue // the gRPC backend protocol needs the size of a CAS blob
+			}
+			r := diskGet(peer, kind, hash, sz)
+			if !r.hit || !bytes.Equal(r.data, data) || r.size != int64(len(data)) {
+				t.Fatalf("a peer in front of the same backend cannot read the blob (hit=%v %d bytes size=%d err=%v): %s", r.hit, len(r.data), r.size, r.err, ctxs)
+			}
+		}
+		if err := inv.SettledAccounting(front, 0, 5*time.Second); err != nil {
+			t.Fatalf("front cache after the write-through: %v: %s", err, ctxs)
+		}
+	})
+}
+
+// TestC12ExistenceChecksEndEarly: backend existence checks (FindMissingBlobs,
+// the dependency check of a validated ActionResult lookup) that end before
+// the backend has answered every question - the client goes away, or one
+// "absent" answer makes the rest pointless - with MORE questions outstanding
+// than there are lookup workers (512), a backend that takes its time, and the
+// end coming after everything was queued. Oracle: the fault degrades to an
+// error or a miss, and nothing is left behind (goroutines in request frames,
+// reservations).
+func TestC12ExistenceChecksEndEarly(t *testing.T) {
+	rt.Check(t, rt.N(25, 250), func(t *rapid.T) {
+		px := fproxy.New()
+		delay := time.Duration(rapid.SampledFrom([]int{200, 1000, 5000, 20000}).Draw(t, "answerMicros")) * time.Microsecond
+		px.ContDelay = func(string) time.Duration { return delay }
+		s, err := stack.New(stack.Opts{Proxy: px})
+		if err != nil {
+			t.Fatal(err)
+		}
+		defer s.Close()
+		inv.SetBaseline()
+		n := rapid.SampledFrom([]int{30, 513, 700, 1500, 2500}).Draw(t, "digests")
+		holds := rapid.SampledFrom([]string{"none", "all", "all-but-first", "all-but-last", "half"}).Draw(t, "backendHolds")
+		var ds []*pb.Digest
+		for i := 0; i < n; i++ {
+			d := gen.Expand(uint64(i)+90000, 24, "rand")
+			ds = append(ds, &pb.Digest{Hash: gen.SHA(d), SizeBytes: 24})
+			if holds == "all" || holds == "all-but-first" && i > 0 || holds == "all-but-last" && i < n-1 || holds == "half" && i%2 == 0 {
+				px.Set(cache.CAS, gen.SHA(d), fproxy.Obj{Stored: d, Logical: 24})
+			}
+		}
+		how := rapid.SampledFrom([]string{"findmissing-cancel", "findmissing-cancel", "depcheck"}).Draw(t, "how")
+		after := time.Duration(rapid.SampledFrom([]int{0, 1, 3, 10, 50, 300}).Draw(t, "cancelAfterMillis")) * time.Millisecond
+		ctxs := fmt.Sprintf("backend=scripted %s: %d digests, backend holds %s, one answer takes %v, client gives up after %v", how, n, holds, delay, after)
+		E.Case(fmt.Sprintf("endearly|%s|%d|%s|%v|%v", how, n, holds, delay, after), n > 512, "backend=scripted-existence-checks", "endearly="+how, fmt.Sprintf("endearly>512=%v", n > 512))
+		E.Sample("endearly/"+how, map[string]any{"how": how, "digests": n, "backend_holds": holds, "answer_time_us": int(delay / time.Microsecond), "client_gives_up_after_ms": int(after / time.Millisecond)})
+		switch how {
+		case "findmissing-cancel":
+			ctx, cancel := context.WithTimeout(context.Background(), after)
+			_, _ = s.Cache.FindMissingCasBlobs(ctx, ds)
+			cancel()
+		case "depcheck":
+			ar := &pb.ActionResult{ExecutionMetadata: &pb.ExecutedActionMetadata{Worker: "w"}}
+			for i, d := range ds {
+				ar.OutputFiles = append(ar.OutputFiles, &pb.OutputFile{Path: fmt.Sprint("f", i), Digest: d})
+			}
+			body, _ := proto.Marshal(ar)
+			key := gen.SHA([]byte("end-early"))
+			if err := s.Cache.Put(context.Background(), cache.AC, key, int64(len(body)), bytes.NewReader(body)); err != nil {
+				t.Fatal(err)
+			}
+			px.Wait()
+			ctx, cancel := context.WithTimeout(context.Background(), 30*time.Second)
+			got, _, err := s.Cache.GetValidatedActionResult(ctx, key)
+			cancel()
+			if holds != "all" && got != nil && err == nil {
+				t.Fatalf("dependency check hit although the backend lacks referenced blobs: %s", ctxs)
+			}
+			if holds == "all" && (got == nil || err != nil) {
+				t.Fatalf("dependency check missed although the backend holds every referenced blob (%v): %s", err, ctxs)
+			}
+		}
+		if gs := inv.LeakedRequestGoroutines(10 * time.Second); len(gs) > 0 {
+			t.Fatalf("after the request: goroutine(s) still parked in request frames:\n%s\n%s", strings.Join(gs, "\n\n"), ctxs)
+		}
+		if err := inv.SettledAccounting(s, 0, 5*time.Second); err != nil {
+			t.Fatalf("after the request: %v: %s", err, ctxs)
+		}
+	})
+}
+
